@@ -139,8 +139,14 @@ fn history_case(
             }
         }
     }
-    let reference: Vec<Obs> = ins.iter().map(|i| observe(e.parse, i, MODE_PLAIN, 0)).collect();
+    // cost guard: drop inputs on which the grammar needs exponential time
+    ins.retain(|i| !oracle(g, e.rule, i, 0).diverged);
     let mut out = CaseOut::default();
+    if ins.is_empty() {
+        out.skipped = Some("oracle_diverged");
+        return Ok((out, ins));
+    }
+    let reference: Vec<Obs> = ins.iter().map(|i| observe(e.parse, i, MODE_PLAIN, 0)).collect();
     for (step, ix) in order.iter().enumerate() {
         let k = ((*ix as usize) * ins.len()) >> 16;
         let obs = observe(e.parse, &ins[k], MODE_PLAIN, 0);
@@ -467,6 +473,12 @@ fn run_c07(table: &'static [GrammarEntry], ctxs: &[(usize, GCtx)], cr: &CaseRunn
 fn c13_case(table: &'static [GrammarEntry], a: &(usize, GCtx), b: &(usize, GCtx), rule: &str, input: &str) -> Result<CaseOut, Failure> {
     let mut out = CaseOut::default();
     let (ea, eb) = (find_rule(table, a.0, rule).unwrap(), find_rule(table, b.0, rule).unwrap());
+    // cost guard: inputs on which the grammar needs exponential time are skipped (the oracle runs out of fuel first)
+    let o = oracle(&a.1, rule, input, 0);
+    if o.diverged {
+        out.skipped = Some("oracle_diverged");
+        return Ok(out);
+    }
     let oa = observe(ea.parse, input, MODE_PLAIN, 0);
     let ob = observe(eb.parse, input, MODE_PLAIN, 0);
     if oa.panic.is_some() != ob.panic.is_some() || oa.ok != ob.ok || oa.debug != ob.debug {
@@ -475,7 +487,6 @@ fn c13_case(table: &'static [GrammarEntry], a: &(usize, GCtx), b: &(usize, GCtx)
     if !oa.ok && oa.panic.is_none() && oa.err_pos != ob.err_pos {
         return Err(fail(format!("error position differs between `>Rule` and the inlined body for rule {} on {:?}", rule, input), format!("{}", ob.err_pos), format!("{}", oa.err_pos)));
     }
-    let o = oracle(&a.1, rule, input, 0);
     if !o.diverged && oa.panic.is_none() {
         if o.ok != oa.ok || (o.ok && o.value != oa.debug) {
             return Err(fail(format!("grammar with includes differs from PEG semantics (includer's settings) for rule {} on {:?}", rule, input), oracle_summary(&o), oa.summary()));
@@ -519,6 +530,10 @@ fn run_c13(table: &'static [GrammarEntry], ctxs: &[(usize, GCtx)], cr: &CaseRunn
 fn c16_case(table: &'static [GrammarEntry], a: &(usize, GCtx), b: &(usize, GCtx), rule: &str, input: &str) -> Result<CaseOut, Failure> {
     let mut out = CaseOut::default();
     let (ea, eb) = (find_rule(table, a.0, rule).unwrap(), find_rule(table, b.0, rule).unwrap());
+    if oracle(&a.1, rule, input, 0).diverged {
+        out.skipped = Some("oracle_diverged");
+        return Ok(out);
+    }
     let oa = observe(ea.parse, input, MODE_PLAIN, 0);
     let ob = observe(eb.parse, input, MODE_PLAIN, 0);
     if oa.result_key() != ob.result_key() {
@@ -600,8 +615,15 @@ fn run_c20(table: &'static [GrammarEntry], ctxs: &[(usize, GCtx)], cr: &CaseRunn
                 }
             }
             for i in ins {
+                // cost guard: exponential cases are left out
+                if oracle(g, e.rule, &i, 0).diverged {
+                    continue;
+                }
                 work.push((e.parse, g.id.clone(), e.rule.to_string(), i));
             }
+        }
+        if work.is_empty() {
+            return Ok(());
         }
         let reference: Vec<(bool, String, usize, String, bool)> = work
             .iter()
